@@ -341,8 +341,8 @@ def run(R):
                      "(argparse-equivalent to no -v)", "child processes get UTF-8 stdio; vectors are valid Unicode",
                      "an undefined v2 score may be printed as None or omitted",
                      "the literal value '--' is not generated: argparse itself drops it before the calculator runs"]
-    R.pmap("shard", [(i, R.pick(25, 400), "subprocess", R.seed) for i in range(16)])
-    R.pmap("shard", [(i, R.pick(1300, 20000), "inprocess", R.seed) for i in range(16)])
+    R.pmap("shard", [(i, R.pick(25, 1200), "subprocess", R.seed) for i in range(16)])
+    R.pmap("shard", [(i, R.pick(1300, 60000), "inprocess", R.seed) for i in range(16)])
     for s in ("valid-vector", "invalid-vector", "interactive-eof", "interactive-completed"):
         if R.P.strata.get(s, 0) == 0:
             R.inconclusive.append("no %s run observed" % s)
